@@ -40,8 +40,8 @@ def jobs(tier, seed):
         js.append({"sub": "fanin-wide", "hashseed": hs, "primary": hs == 0})
     n = 8 if q else 48
     js += [{"sub": "fanin-gen", "chunk": i, "of": n} for i in range(n)]
-    js += [{"sub": "fanout", "chunk": i, "of": 4} for i in range(4)]
-    js += [{"sub": "fanout", "chunk": 0, "of": 4, "hashseed": seeds[-1], "primary": False}]
+    js += [{"sub": "fanout", "chunk": i, "of": 8} for i in range(8)]
+    js += [{"sub": "fanout", "chunk": i, "of": 8, "hashseed": seeds[-1], "primary": False} for i in range(8)]
     m = 8 if q else 32
     js += [{"sub": "registers", "chunk": i, "of": m} for i in range(m)]
     js += [{"sub": "acyclic", "chunk": i, "of": 4} for i in range(4)]
@@ -191,6 +191,32 @@ def fanout_descs(max_loads):
         yield space.to_desc(1, gates, outputs="sinks")
     for gates in space.circuits(2, 3, types=("and", "xor", "not"), max_arity=2, min_gates=3):
         yield space.to_desc(2, gates, outputs="sinks")
+    yield from fanout_series()
+
+
+def fanout_series():
+    """Overloaded nodes in series: a -> n0 -> n1 (-> n2), every stage (the input included) with its own number of
+    side loads, every stage type in {not, buf, and} - the transform's work on one node must not overload its driver
+    or its loads, whatever order the nodes are visited in."""
+    side_types = ("and", "or", "xor", "nand")
+    plans = []
+    for L, loads in ((1, (0, 1, 2, 3, 4)), (2, (0, 1, 2, 3, 4)), (3, (1, 3))):
+        for types in itertools.product(("not", "buf", "and"), repeat=L):
+            for cnt in itertools.product(loads, repeat=L + 1):
+                plans.append((types, cnt))
+    for types, cnt in plans:
+        nodes = [["a", "input", [], False], ["b", "input", [], False]]
+        prev = "a"
+        stages = ["a"]
+        for s, t in enumerate(types):
+            n = f"n{s}"
+            nodes.append([n, t, [prev] if t in ("not", "buf") else [prev, "b"], s == len(types) - 1 and cnt[-1] == 0])
+            stages.append(n)
+            prev = n
+        for s, st in enumerate(stages):
+            for j in range(cnt[s]):
+                nodes.append([f"{st}_ld{j}", side_types[j % 4], [st, "b"], True])
+        yield {"name": "top", "nodes": nodes}
 
 
 def check_fanout(acc, desc, k):
